@@ -863,6 +863,75 @@ def family_tzx(r, wd, tag, opts=False):
                 files=[file_obs('tzx', write(os.path.join(wd, tag + '.tzx'), raw), **kw)])
 
 
+DR_LAST = ('00', 'ff', '80', '7f', '01', 'fe', 'alt', 'rnd')
+DR_LAST_BYTE = {'00': 0x00, 'ff': 0xFF, '80': 0x80, '7f': 0x7F, '01': 0x01, 'fe': 0xFE}
+DR_PREV = {0: (0x00, 0xFE, 0x00, 0xAA, 0x10, 0x80), 1: (0xFF, 0x01, 0xFF, 0x55, 0xEF, 0x7F)}     # by the level of the last sample
+DR_TPS = (79, 1, 158, 3, 1000, 2)
+DR_RUNS = (2, 5, 12)
+
+
+def dr_grid():
+    """the deterministic part of family dr: used bits 1..8 x class of the last byte x level of the sample before the last byte
+    (-1: the block has one byte only) x two shapes of what comes before"""
+    out = []
+    for used in range(1, 9):
+        for last in DR_LAST:
+            for lvl in (0, 1):
+                for shape in (0, 1):
+                    out.append((used, last, lvl, len(out)))
+    for used in range(1, 9):
+        for last in DR_LAST:
+            out.append((used, last, -1, len(out)))
+    return out
+
+
+def dr_class(samples, used):
+    """input class of a direct recording: used bits, and whether the used samples of the last byte are all equal and continue
+    (cont) or flip (flip) the level of the sample before them, or contain an edge themselves (edge); 'one' = one byte only"""
+    bits = [(samples[-1] >> (7 - i)) & 1 for i in range(used)]
+    if len(samples) < 2:
+        rel = 'one-flat' if len(set(bits)) == 1 else 'one-edge'
+    elif len(set(bits)) > 1:
+        rel = 'edge'
+    else:
+        rel = 'cont' if bits[0] == samples[-2] & 1 else 'flip'
+    return 'u%d:%s%d' % (used, rel, bits[-1])
+
+
+def family_dr(r, wd, tag, arg):
+    """a TZX file around one direct recording block (0x15): [a tone that sets the level] + the recording + a block whose edges
+    show any error in the recording's total length (tone / pulse sequence / pause + tone / another recording)"""
+    used, last, lvl, k = arg
+    lastb = DR_LAST_BYTE.get(last)
+    if last == 'alt':
+        lastb = r.choice((0xAA, 0x55))
+    elif last == 'rnd':
+        lastb = r.randrange(256)
+    samples = []
+    if lvl >= 0:
+        samples += r.choice(([], [r.randrange(256)], [0xA5, 0x0F], rand_bytes(r, 3)))
+        n, m = r.choice(DR_RUNS), r.choice(DR_RUNS)
+        samples += ([], [0] * n, [255] * n, [0] * n + [255] * m, [255] * n + [0] * m)[k % 5]         # long runs in the middle
+        samples.append(DR_PREV[lvl][(k // 2) % len(DR_PREV[lvl])])
+    samples.append(lastb)
+    tps = DR_TPS[(k // 5) % len(DR_TPS)]
+    parts = [r.choice((b'', b'', tzx12(100, 1), tzx12(300, 2)))]
+    parts.append(tzx15(samples, tps, used, r.choice((0, 0, 1, 2))))
+    f = k % 4
+    if f == 0:
+        parts.append(tzx12(r.choice((100, 2168)), r.choice((1, 2, 3))))
+    elif f == 1:
+        parts.append(tzx13([667, 735, r.choice((1, 855))]))
+    elif f == 2:
+        parts += [tzx20(r.choice((1, 3))), tzx12(500, 2)]
+    else:
+        parts += [tzx15([r.choice((0x00, 0xFF, 0x0F, 0xF0)), r.choice((0x00, 0xFF, 0x3C))], r.choice(DR_TPS), r.randrange(1, 9), 0),
+                  tzx13([100, 200])]
+    raw = tzx_header() + b''.join(parts)
+    return dict(kind='files', key='tzx-dr', same=0, samedata=0, drclass=dr_class(samples, used), drtps=tps,
+                files=[file_obs('tzx', write(os.path.join(wd, tag + '.tzx'), raw))])
+
+
 def select_opts(r, nblocks):
     """--tape-start / --tape-stop / --tape-skip"""
     kw = {}
@@ -1012,6 +1081,8 @@ def file_job(r, fam, arg, wd, tag):
         return family_tzx(r, wd, tag, arg)
     if fam == 'pzx':
         return family_pzx(r, wd, tag, arg)
+    if fam == 'dr':
+        return family_dr(r, wd, tag, tuple(arg))
     if fam == 'tap':
         return family_tap(r, wd, tag, arg)
     if fam == 'puls':
